@@ -36,6 +36,8 @@ package goat
 //@ chan Mval.map_Luint64_Rgoat.streamHandler.done never_closed
 //@ chan H.goat.streamHandler.ch never_closed
 //@ chan H.goat.streamHandler.done never_closed
+//@ chan Mval.map_Luint64_Rgoat.streamHandler.gone class ctx.done
+//@ chan H.goat.streamHandler.gone class ctx.done
 // the class of a channel is a refinement of the place it is stored in (proved at every store, assumed at every load)
 //@ chan Mval.map_Luint64_Rgoat.streamHandler.ch class goat.streams.ch
 //@ chan H.goat.handler.unaryRpcChan class goat.unaryRpcChan
@@ -48,6 +50,7 @@ package goat
 //@   inv[C05.stream_registry C12.stream_registry C14.stream_registry C10.stream_registry C07.stream_registry C11.stream_registry C02.stream_registry] forall id Int :: id in self.streams ==>
 //@     | self.streams[id].ch != nil && isclass(self.streams[id].ch, "goat.streams.ch") && tag(self.streams[id].ch) == id
 //@     | && self.streams[id].done != nil && tag(self.streams[id].done) == id && cap(self.streams[id].done) == 1 && chlen(self.streams[id].done) == 0 && self.streams[id].cancel != nil
+//@   inv[C11.release_signal_is_the_stream_contexts_done_channel] forall id Int :: id in self.streams ==> self.streams[id].gone == ctx_donech(cancels(self.streams[id].cancel))
 
 //@ func goat.(*handler).resetStream
 //@   nopanic[C12.nopanic]
@@ -71,6 +74,7 @@ package goat
 
 //@ func goat.(*handler).processStreamingRpc
 //@   nopanic[C12.nopanic]
+//@   released_by[C11.parked_hand_off_is_released_when_the_handler_leaves] handler.gone
 //@   ctxaware[C10.read_loop_escapes]
 //@   requires[C12.dispatch_wellformed] rpc != nil && rpc.Header != nil && info != nil && sd != nil && sd.Handler != nil && clientCtx != nil
 //@   makechan 0 tag rpc.Id class goat.streams.ch nc
@@ -81,7 +85,7 @@ package goat
 //@     | ncalls("go:(*github.com/avos-io/goat.handler).runStream") == old(ncalls("go:(*github.com/avos-io/goat.handler).runStream"))
 //@   ensures[C12.reset_for_unknown_body] !atlock(rpc.Id in h.streams) && !(rpc.Reset_ != nil && rpc.Reset_.Type == "RST_STREAM") && rpc.Body != nil ==>
 //@     | ncalls("call:goat.(*handler).resetStream") == old(ncalls("call:goat.(*handler).resetStream")) + 1
-//@   ensures[C02.every_message_handed_over C05.every_message_handed_over] atlock(rpc.Id in h.streams) && !(rpc.Reset_ != nil && rpc.Reset_.Type == "RST_STREAM") && result == nil ==> ncalls("send") == old(ncalls("send")) + 1
+//@   ensures[C02.every_message_handed_over C05.every_message_handed_over] atlock(rpc.Id in h.streams) && !(rpc.Reset_ != nil && rpc.Reset_.Type == "RST_STREAM") && result == nil ==> ncalls("send") == old(ncalls("send")) + 1 || closed(atlock(h.streams[rpc.Id].gone))
 //@   ensures[C07.reset_cancels_handler] atlock(rpc.Id in h.streams) && (rpc.Reset_ != nil && rpc.Reset_.Type == "RST_STREAM") ==> done(cancels(atlock(h.streams[rpc.Id].cancel)))
 //@   ensures[C10.registered_only_with_its_goroutine C12.registered_only_with_its_goroutine C14.registered_only_with_its_goroutine] rpc.Id in h.streams && !atlock(rpc.Id in h.streams) ==>
 //@     | ncalls("go:(*github.com/avos-io/goat.handler).runStream") == old(ncalls("go:(*github.com/avos-io/goat.handler).runStream")) + 1
@@ -144,13 +148,14 @@ package goat
 //@   nopanic[C12.nopanic]
 //@   atcall[C20.end_reports_final_error] internal.StatsEndRPC : arg3 == appErr && !arg1
 //@   requires info != nil && sd != nil && sd.Handler != nil && rpc != nil && rpc.Header != nil && ctx != nil
-//@   requires handler.ch != nil && handler.cancel != nil && handler.done != nil && isclass(handler.ch, "goat.streams.ch") && tag(handler.ch) == streamId && isclass(handler.done, "none") && neverclosed(handler.ch) && neverclosed(handler.done)
+//@   requires handler.ch != nil && handler.cancel != nil && handler.done != nil && isclass(handler.ch, "goat.streams.ch") && tag(handler.ch) == streamId && isclass(handler.done, "none") && neverclosed(handler.ch) && neverclosed(handler.done) && handler.gone == ctx_donech(cancels(handler.cancel))
 //@   ensures[C14.stream_unregistered C10.stream_unregistered] !(streamId in h.streams)
 //@   ensures[C06.trailer_after_handler C02.trailer_after_handler C03.trailer_after_handler] ncalls("call:server.(*serverStream).SendTrailer") == old(ncalls("call:server.(*serverStream).SendTrailer")) + 1
 //@   ensures[C01.handler_once C20.handler_once C12.handler_once] ncalls("fnfield:H.google.golang.org/grpc.StreamDesc.Handler") + ncalls("fnfield:H.goat.Server.streamInterceptor")
 //@     | == old(ncalls("fnfield:H.google.golang.org/grpc.StreamDesc.Handler") + ncalls("fnfield:H.goat.Server.streamInterceptor")) + 1
 //@   ensures[C07.stream_ctx_cancelled_at_exit C10.stream_ctx_cancelled_at_exit] done(cancels(handler.cancel))
 //@   atcall[C03.trailer_carries_handler_result C06.trailer_carries_handler_result] server.(*serverStream).SendTrailer : arg1 == appErr
+//@   atcall[C11.stream_signals_before_it_waits_for_the_registry_lock] goat.(*handler).unregisterStream : done(cancels(handler.cancel))
 
 // reader closure of a server stream: only this stream's queue, or the stream context's error
 //@ func goat.(*handler).runStream$1
